@@ -46,9 +46,10 @@ def remove_scratch(d):
 
 class SchedOpts:
     def __init__(self, preempt_p=0.02, timer_p=0.05, policy='random', sticky_p=0.3, step_cap=400_000,
-                 time_cap=3600.0):
+                 time_cap=3600.0, hot_p=0.0):
         self.preempt_p, self.timer_p, self.policy, self.sticky_p = preempt_p, timer_p, policy, sticky_p
         self.step_cap, self.time_cap = step_cap, time_cap
+        self.hot_p = hot_p
 
     @classmethod
     def swarm(cls, rng, **kw):
@@ -68,7 +69,7 @@ class SchedOpts:
 
     def as_dict(self):
         return dict(preempt_p=self.preempt_p, timer_p=self.timer_p, policy=self.policy,
-                    sticky_p=self.sticky_p, step_cap=self.step_cap)
+                    sticky_p=self.sticky_p, step_cap=self.step_cap, hot_p=self.hot_p)
 
     @classmethod
     def from_dict(cls, d):
@@ -116,7 +117,8 @@ def run_process(env, main_factory, opts=None, *, keep_log=False, quiesce=True):
     seed = int.from_bytes(substream(env.seed, f'proc{env.procs}').randbytes(6), 'big')
     s = core.Sched(seed, preempt_p=opts.preempt_p, timer_p=opts.timer_p, policy=opts.policy,
                    sticky_p=opts.sticky_p, step_cap=opts.step_cap, time_cap=opts.time_cap,
-                   start_time=env.now, keep_log=keep_log)
+                   start_time=env.now, keep_log=keep_log or bool(os.environ.get('VERIF_DUMP_EVENTS')))
+    s.hot_p = getattr(opts, 'hot_p', 0.0)
     res = ProcResult()
     install.begin(s, env)
     loop = core.SimLoop(s)
@@ -168,6 +170,9 @@ def run_process(env, main_factory, opts=None, *, keep_log=False, quiesce=True):
     res.digest = s.digest()
     res.events = s.events
     res.stdout, res.stderr = out.getvalue(), err.getvalue()
+    if os.environ.get('VERIF_DUMP_EVENTS') and s.events is not None:
+        with open(os.environ['VERIF_DUMP_EVENTS'], 'a') as fh:
+            fh.write(f'=== process {env.procs} seed {seed}\n' + '\n'.join(s.events) + '\n')
     del loop
     # cyclic garbage of this process (suspended coroutines, futures) is finalized now, outside
     # any simulated run; the collector is off while a run is in progress so that allocation
